@@ -582,14 +582,13 @@ top:
 		return nil
 
 	case LexerUnquote:
+		lexer.state = LexerNormal
 		if r == '@' {
 			lexer.AppendToken(lexer.Token(TokenTildeAt, ""))
-		} else {
-			lexer.AppendToken(lexer.Token(TokenTilde, ""))
-			lexer.buffer.WriteRune(r)
+			return nil
 		}
-		lexer.state = LexerNormal
-		return nil
+		lexer.AppendToken(lexer.Token(TokenTilde, ""))
+		goto top // process the rune after ~ in normal mode
 	case LexerFreshAssignOrColon:
 		lexer.state = LexerNormal
 
